@@ -510,6 +510,10 @@ type tworld struct {
 	trace   []string
 	verbose bool
 	hist    []string
+	// heights whose blocks stay unconfirmed until a later block is confirmed (the lagging-confirm
+	// variant of runTermShard, and the probe's C05_TERM_HOLD)
+	holdConfirms map[uint32]bool
+	hashes       map[uint32]common.Hash // block hash per height of this run
 }
 
 type rewardEntry struct {
@@ -531,11 +535,7 @@ func newTWorld() *tworld {
 	return w
 }
 
-func (w *tworld) close() {
-	t0 := time.Now()
-	w.f.Destroy()
-	tTimes["destroy"] += time.Since(t0)
-}
+func (w *tworld) close() { w.f.Destroy() }
 
 func (w *tworld) sortedAddrs() []common.Address {
 	l := make(common.AddressSlice, 0, len(w.addrs))
@@ -687,10 +687,10 @@ func (w *tworld) mine(txs types.Transactions, late bool, post func(am *account.M
 	}
 	obs.block = b
 	obs.discards = len(inv)
-	// the other deputies confirm
+	// the other deputies confirm (unless the scenario holds the confirms of this height back)
 	for _, dn := range deps {
 		k := tKeyByNodeID[string(dn.NodeID)]
-		if k != nil && k != miner {
+		if k != nil && k != miner && !w.holdConfirms[h] {
 			b.Confirms = append(b.Confirms, node.SignConfirm(k, b.Hash()))
 		}
 	}
@@ -714,7 +714,7 @@ func (w *tworld) mine(txs types.Transactions, late bool, post func(am *account.M
 		obs.rejected = "accepted but not the new head"
 		return obs, nil
 	}
-	if w.f.BC.StableBlock().Hash() != b.Hash() {
+	if w.f.BC.StableBlock().Hash() != b.Hash() && !w.holdConfirms[h] {
 		obs.rejected = "accepted but not stable with all deputies' signatures"
 		return obs, nil
 	}
@@ -724,6 +724,10 @@ func (w *tworld) mine(txs types.Transactions, late bool, post func(am *account.M
 		return nil, err
 	}
 	w.head = stored
+	if w.hashes == nil {
+		w.hashes = map[uint32]common.Hash{}
+	}
+	w.hashes[h] = stored.Hash()
 	if h%termT == 0 {
 		w.snap[h/termT] = stored.DeputyNodes
 	}
@@ -732,6 +736,9 @@ func (w *tworld) mine(txs types.Transactions, late bool, post func(am *account.M
 
 // ---------------------------------------------------------------------------------------------
 
+// tProbe runs one history verbosely (development aid and hand replay):
+//   C05_TERM_SCEN=<scenario> C05_TERM_PROBE="<letter> <letter> ..." [C05_TERM_HOLD="<height> ..."] [C05_TERM_TIMING=n] .build/c05
+// Other knobs: C05_TERM_COUNT=1 prints the planned histories per plan; C05_ONLY_TERM=1 / C05_SKIP_TERM=1 run one phase only.
 func tProbe() {
 	w := newTWorld()
 	defer w.close()
@@ -741,6 +748,11 @@ func tProbe() {
 		sc = tScenarios[s]
 	}
 	r := core.NewResult(prop, "exploration")
+	w.holdConfirms = map[uint32]bool{}
+	for _, f := range strings.Fields(os.Getenv("C05_TERM_HOLD")) {
+		n, _ := strconv.Atoi(f)
+		w.holdConfirms[uint32(n)] = true
+	}
 	hist := append([]string{sc.name}, strings.Fields(os.Getenv("C05_TERM_PROBE"))...)
 	if n, _ := strconv.Atoi(os.Getenv("C05_TERM_TIMING")); n > 0 {
 		t0 := time.Now()
@@ -759,7 +771,7 @@ func tProbe() {
 			runTermBlocks(w2, sc, hist, len(sc.prefix), len(sc.prefix)+sc.window, r)
 			w2.close()
 		}
-		fmt.Printf("%d histories from the template in %v: %v each %v\n", n, time.Since(t0), time.Since(t0)/time.Duration(n), tTimes)
+		fmt.Printf("%d histories from the template in %v: %v each\n", n, time.Since(t0), time.Since(t0)/time.Duration(n))
 		os.RemoveAll(tpl.dir)
 	}
 	runTermHistory(w, hist, r)
@@ -808,14 +820,9 @@ func (w *tworld) freeze() *tTemplate {
 	return t
 }
 
-var tTimes = map[string]time.Duration{}
-
 func (t *tTemplate) thaw() *tworld {
 	dir := core.ScratchDir("c05t")
-	t0 := time.Now()
 	copyTree(t.dir, dir)
-	tTimes["copy"] += time.Since(t0)
-	defer func() { tTimes["thaw"] += time.Since(t0) }()
 	w := &tworld{addrs: map[common.Address]bool{}, rewards: map[uint32]*rewardEntry{}, snap: map[uint32]types.DeputyNodes{}}
 	for a := range t.addrs {
 		w.addrs[a] = true
